@@ -310,7 +310,56 @@ func c14Child(cfgJSON string) {
 	if k.Replay {
 		e.replayKnown()
 	}
+	e.bigSources()
 	c.Finish(k.Out)
+}
+
+// bigSources: the source of a message is served whole whatever its size (the server accepts up to MaxMessageBytes, 10 MB by default):
+// through the raw REST route and through the Go client the bytes are the store's, for sizes around 64 KiB, 1 MiB and 4 MiB.
+func (e *c14Env) bigSources() {
+	dir := filepath.Join(e.k.Work, "fs-big")
+	os.MkdirAll(dir, 0o755)
+	defer os.RemoveAll(dir)
+	be, err := newBackend(e.k.Backend, 0, 0, dir)
+	if err != nil {
+		return
+	}
+	e.be = be
+	e.mm.Store = be.st
+	e.mm.ExtHost = be.host
+	e.trace = nil
+	for i, n := range []int{65535, 1<<20 - 200, 1<<20 + 1, 4<<20 + 17} {
+		head := fmt.Sprintf("From: <big@src.net>\r\nTo: <big@dest.org>\r\nSubject: big %d\r\n\r\n", i)
+		line := strings.Repeat("0123456789abcdefghijklmnopqrstuvwxyzABCDEFGHIJKLMNOPQRSTUVWXYZ+/", 1) + "\r\n"
+		body := strings.Repeat(line, (n-len(head))/len(line)+1)[:n-len(head)]
+		src := head + body
+		d := &message.Delivery{Meta: event.MessageMetadata{Mailbox: "big", From: &mail.Address{Address: "big@src.net"}, To: []*mail.Address{{Address: "big@dest.org"}},
+			Date: time.Unix(1700000000+int64(i), 0), Subject: fmt.Sprintf("big %d", i)}, Reader: strings.NewReader(src)}
+		id, err := be.st.AddMessage(d)
+		if err != nil {
+			e.c.Note("bigSources: AddMessage(%d bytes): %v", n, err)
+			continue
+		}
+		e.line("deliver a %d-byte message to mailbox big (id %s)", n, id)
+		e.c.Compared(2)
+		buf, cerr := e.cl.GetMessageSource("big", id)
+		if cerr != nil || buf == nil || buf.String() != src {
+			got := -1
+			if buf != nil {
+				got = buf.Len()
+			}
+			e.fail("client-round-trip", "big", fmt.Sprintf("GetMessageSource(big, %s): err=%v, %d bytes returned, the stored source has %d", id, cerr, got, len(src)))
+		}
+		resp, herr := e.raw.Get(e.srv.URL + e.prefix("/api/v1/mailbox/big/"+id+"/source"))
+		if herr == nil {
+			rb, _ := io.ReadAll(resp.Body)
+			resp.Body.Close()
+			if resp.StatusCode != 200 || string(rb) != src {
+				e.fail("source-is-the-stored-source", "big", fmt.Sprintf("GET source of a %d-byte message: status %d, %d bytes", len(src), resp.StatusCode, len(rb)))
+			}
+		}
+		e.c.H("big-source:" + strconv.Itoa(n))
+	}
 }
 
 func (e *c14Env) setup() {
